@@ -578,6 +578,16 @@ package server
 // still armed - once End of Data has come in (which stops the timer and forgets it) a timeout event that was already
 // on its way is void, also when the cache came back with the same session id
 //@   at-call ^m.table.DeleteAll(client.host) requires client.timer != nil
+// "ROAs of a previous session of the cache are removed when the session id changes": once End of Data has been taken
+// in, the manager has recorded another session id for the cache only together with the removal of everything the
+// cache had announced under the old one (0 is a session id like any other; the serial number has no say in it) -
+// stated where the lifetime timer is dealt with, the first thing after the session id is recorded; and no PDU other
+// than End of Data changes the recorded session id (Cache Response in particular: the comparison at End of Data
+// would never see a difference)
+//@ func (*roaManager).handleRTRMsg
+//@   claims at-call at-return
+//@   at-call ^client.timer.Stop() requires called(DeleteAll) || client.sessionID == old(client.sessionID)
+//@   at-return requires typeOf(m1) == (*rtr.RTRCacheResponse) ==> client.sessionID == old(client.sessionID)
 
 // =============================================================================================
 // C10 - "what is read back equals what was configured": the action type of an ext-community / large-community action
@@ -612,6 +622,13 @@ package server
 //@ func bmpPeerDown
 //@   claims at-call
 //@   at-call bmp.NewBMPPeerDownNotification( requires (int(arg1) == bmp.BMP_PEER_DOWN_REASON_LOCAL_BGP_NOTIFICATION || int(arg1) == bmp.BMP_PEER_DOWN_REASON_REMOTE_BGP_NOTIFICATION) ==> arg2 != nil
+
+// from C19 "every record the daemon emits": a table dump holds every route of the table - each known path of a
+// destination becomes an entry of exactly one of the two RIB records written for that destination (plain or ADD-PATH)
+//@ props C19
+//@ func (*mrtWriter).dumpTable
+//@   claims step
+//@   loop 2 step len(entries) + len(entriesAddPath) == header(len(entries)) + header(len(entriesAddPath)) + 1
 
 // from C16 "every route gets the verdict ...": the validation of a listing runs over the table the listing produced -
 // when the table could not be produced (a filter the table cannot evaluate) there is nothing to validate and the error
